@@ -83,6 +83,15 @@ def runCase (c : Case) : String := Id.run do
       if line != "end" then return s!"fail {id} op={i} kind=reject clause=drop-panic impl={line}"
       continue
     i := i + 1
+    if (line.splitOn "skipped-outlier-pending").length > 1 then
+      -- the harness refused to fetch because (as far as it can tell) only far-future outliers (> 2^62 ns ahead) are
+      -- pending: accepted iff the abstract event set agrees (same length, nothing nearer), and the case ends here
+      let toks := words ((splitArrow line).2)
+      let olen := (kvNat toks "len").getD 0
+      let pendAll := ss.1.zero ++ ss.1.pend
+      let allFar := pendAll.all (fun e => e.time ≥ ss.1.cur + 2 ^ 62)
+      if olen == FES.len ss.1 && olen > 0 && allFar then break
+      else return s!"fail {id} op={i} kind=reject line=[{line}] clause=outlier-stuck spec-len={FES.len ss.1} impl-len={olen} (an outlier the script cancelled is still in the queue, or nearer events are pending)"
     match parseLine line with
     | none => return s!"fail {id} op={i} kind=badline detail={line}"
     | some (op, obs) =>
